@@ -153,7 +153,7 @@ def forward_cases(rng, thorough):
     """where a forward is dialled: node-a's address is one of three live listeners; 'addr' re-registers it (from either node),
     'fwd' lets a fresh tunnel wait on node-a and runs the REAL target-side path on node-b, 'ff' lets backend time pass"""
     out = []
-    base = [{"op": "addr", "n": 0, "k": 0}, {"op": "fwd"}, {"op": "replay", "k": 0}, {"op": "fwd"}, {"op": "addr", "n": 0, "k": 1}, {"op": "fwd"}, {"op": "replay", "k": 1},
+    base = [{"op": "addr", "n": 0, "k": 0}, {"op": "fwd"}, {"op": "replay", "k": 0}, {"op": "replay", "k": 1, "n": 1}, {"op": "fwd"}, {"op": "addr", "n": 0, "k": 1}, {"op": "fwd"}, {"op": "replay", "k": 1},
             {"op": "addr", "n": 1, "k": 2}, {"op": "fwd"}, {"op": "ff", "d": 3599001}, {"op": "addr", "n": 0, "k": 2}, {"op": "fwd"},
             {"op": "addr", "n": 0, "k": 0}, {"op": "fwd"}]
     for b in ("memory", "redis", "hybrid", "hybridone"):
@@ -169,7 +169,8 @@ def forward_cases(rng, thorough):
             elif k < 0.8:
                 ops.append({"op": "fwd"})
             elif k < 0.9:
-                ops.append({"op": "replay", "k": rng.randrange(2)})
+                # n=1: the id's first life runs to its end on the forwarding node (forwarder cleanup) before the id is used again
+                ops.append({"op": "replay", "k": rng.randrange(2), "n": rng.randrange(2)})
             else:
                 ops.append({"op": "ff", "d": rng.choice([3599001, 43200001])})
         ops.append({"op": "fwd"})
